@@ -59,10 +59,11 @@ func (b *Backends) ItemsDel() map[string]*Backend {
 func (b *Backends) Clear() {
 	nb := CreateBackends(len(b.shards))
 	for i := range b.shards {
-		if len(b.shards[i]) > 0 {
+		if len(b.shards[i]) > 0 || b.changedShards[i] {
 			// flag only shards with at least one backend associated,
-			// so it has the chance to be updated (removed or cleaned)
-			// in the case the new state doesn't add any backend to it.
+			// or with a change still not applied, so it has the chance
+			// to be updated (removed or cleaned) in the case the new
+			// state doesn't add any backend to it.
 			nb.backendShardChanged(i)
 		}
 	}
